@@ -587,7 +587,8 @@ class Interp:
             rng = range(a.shape[0] - 1, -1, -1) if rev else range(a.shape[0])
             acc = None
             for i in rng:
-                acc = a[i] if acc is None else self.ew(lambda x, y: x + y, acc, a[i])
+                ai = np.asarray(a[i], dtype=object)
+                acc = ai if acc is None else self.ew(lambda x, y: x + y, acc, ai)
                 out[i] = acc
             return [np.moveaxis(out, 0, ax)]
         if name in ("argmin", "argmax"):
